@@ -47,6 +47,29 @@ def run_seqs(args):
     return out
 
 
+def run_restarts(seqs):
+    """histories with ("#construct", "plus"|"nonplus"|"again") elements: a new driver object on a new chip of that
+    variant / on the same, still configured chip (warm restart)"""
+    out = []
+    for seq in seqs:
+        s = sim.Sched()
+        air = sim.Air(s)
+        sim.install(s)
+        chip, nrf, ev = None, None, []
+        for (op, a) in seq:
+            if op == "#construct":
+                if a != "again":
+                    chip = sim.Chip(air, "r", plus=(a == "plus"))
+                nrf, e = rfapi.construct(chip)
+                ev.append(e)
+                if nrf is None:
+                    break
+            else:
+                ev.append(rfapi.do_call(nrf, chip, op, a))
+        out.append(dict(lite=False, ev=ev))
+    return out
+
+
 arg_repr = rfapi.arg_repr
 
 
@@ -121,6 +144,34 @@ def run(chk, lite=False):
             chk.case(("r",) + tuple((op, arg_repr(a)) for op, a in s_))
         chk.traces += n
         chk.phase("random")
+        # warm restarts: session A, then a new driver object on the same chip, then session B; both chip variants
+        noncw = [x for x in L if x[0] not in ("start_carrier_wave", "stop_carrier_wave", "is_plus_variant")]
+        feat = [x for x in noncw if x[0] in ("dynamic_payloads=", "set_dynamic_payloads", "ack=", "allow_ask_no_ack=", "load_ack",
+                                             "auto_ack=", "listen=", "power=")]
+        rs = []
+        for variant in ("plus", "nonplus"):
+            for x in feat:
+                for y in feat:
+                    rs.append((("#construct", variant), x, ("#construct", "again"), y, ("dynamic_payloads", None), ("ack", None)))
+            off = [("dynamic_payloads=", False), ("allow_ask_no_ack=", False), ("ack=", False), ("allow_ask_no_ack=", True)]
+            for x in off:       # sessions that end with every feature off (FEATURE = 0), then one that wants them again
+                for y in off:
+                    for z in (("dynamic_payloads=", True), ("ack=", True), ("allow_ask_no_ack=", True)):
+                        rs.append((("#construct", variant), x, y, ("#construct", "again"), z, ("dynamic_payloads", None)))
+            for _ in range(40 if quick else 1500):
+                A = tuple(rng.choice(noncw) for _ in range(rng.choice([1, 3, 8])))
+                B = tuple(rng.choice(noncw) for _ in range(rng.choice([2, 6, 12])))
+                rs.append((("#construct", variant),) + A + (("#construct", "again"),) + B)
+        chunks = [rs[i::32] for i in range(32)]
+        res = list(ex.map(run_restarts, chunks))
+        tr = [None] * len(rs)
+        for i, r_ in enumerate(res):
+            tr[i::32] = r_
+        judge(chk, rs, tr, single_bad, "warm restarts (new driver object on a configured chip), plus and non-plus variant")
+        for s_ in rs:
+            chk.case(("w",) + tuple((op, arg_repr(a)) for op, a in s_))
+        chk.traces += len(rs)
+        chk.phase("restarts")
     chk.exhaustive = True
     chk.extra["alphabet_letters"] = len(L)
     chk.assumptions += ["nRF24L01+ (plus variant) register model of DESIGN.md appendix A; writes of reserved/out-of-range "
